@@ -2,7 +2,5 @@
 (* constants of the exhaustive configurations of DaemonEndpoints *)
 EXTENDS DaemonEndpoints
 SkipNone == {}
-\* the request class of the confirmed defect F1 (Dkg-variant gossip packet re-enters d.lock)
-SkipF1 == {<<"DKGPacket", "dkgWithMeta">>}
 ASSUME Balanced
 =============================================================================
